@@ -37,7 +37,7 @@ func c17Bias(tier string) drv.Bias {
 
 // Probe op codes (Step.Op) of the C17 engine.
 var c17ReadOps = []string{"p.get", "p.has", "p.getwithindex", "p.getbyindex", "p.getversioned", "p.immget", "p.iterate", "p.iterator", "p.immiterate", "p.proof", "p.membership", "p.nonmembership", "p.export", "p.changes", "p.load", "p.loadversion", "p.versionedproof"}
-var c17WriteOps = []string{"p.set", "p.remove", "p.save", "p.prune", "p.lvfo", "p.import"}
+var c17WriteOps = []string{"p.set", "p.remove", "p.save", "p.prune", "p.lvfo", "p.dvf", "p.import"}
 
 func genC17(seed uint64, run int, tier string) *drv.Plan {
 	r := sim.Sub(seed, "C17", run)
@@ -134,7 +134,7 @@ func genC17(seed uint64, run int, tier string) *drv.Plan {
 		// (step, kind, per-mille position among that step's calls of the kind)
 		p.Mode = "history"
 		hb := c17Bias(tier)
-		hb.Prune, hb.LVFO, hb.Reopen = 15, 5, 15
+		hb.Prune, hb.LVFO, hb.DVF, hb.Reopen = 15, 5, 4, 15
 		g2 := drv.NewGen(sim.Sub(seed, "C17-hist", run), hb)
 		p.Config = g2.Config()
 		p.Steps = g2.History()
@@ -362,6 +362,13 @@ func runProbe(w *drv.World, s drv.Step) (pr probeResult) {
 			return probeResult{res: "skip"}
 		}
 		err := t.LoadVersionForOverwriting(ver)
+		return probeResult{res: fmt.Sprintf("to%d", ver), err: err, wrote: true}
+	case "p.dvf":
+		// DeleteVersionsFrom, the rollback without the reload
+		if len(vers) == 0 {
+			return probeResult{res: "skip"}
+		}
+		err := t.DeleteVersionsFrom(ver + 1)
 		return probeResult{res: fmt.Sprintf("to%d", ver), err: err, wrote: true}
 	}
 	return probeResult{res: "unknown"}
@@ -941,7 +948,7 @@ func oneFault(p *drv.Plan, w *drv.World, base *sim.SimDB, baseDigest uint64, for
 		to := vers[int(s.N)%(len(vers)-1)]
 		newM.PruneTo(to)
 		newT.PruneTo(to)
-	case "p.lvfo":
+	case "p.lvfo", "p.dvf":
 		vers := w.M.Versions()
 		newM.RollbackTo(vers[int(s.N)%len(vers)])
 		newT.RollbackTo(vers[int(s.N)%len(vers)])
